@@ -4,7 +4,7 @@ from __future__ import annotations
 import ast
 import itertools
 
-from ..fold import NOVALUE, PartialEvaluator
+from ..fold import DV, FoldRaise, Unsupported,  NOVALUE, PartialEvaluator
 from ..index import AnalysisError, parent
 from .common import loc, try_fold
 from .playing import BASE, Playing, Tok
@@ -31,13 +31,18 @@ def run(chk):
             bad = ast.unparse(par)
         if isinstance(n, ast.Attribute) and n.attr == 'rank':
             bad = 'rank is consulted'
-    if bad:
-        raise AnalysisError('C06.R1', q, f'cards are used beyond suit identity ({bad})')
+    # a card handed to any function other than a container operation (int(card), hash, ...) leaves the suit-identity argument
+    fc = ac.args.args[1].arg if len(ac.args.args) > 1 else None
+    card_names = {fc} | {g.target.id for n in ast.walk(ac) if isinstance(n, (ast.SetComp, ast.ListComp, ast.GeneratorExp)) for g in n.generators
+                         if isinstance(g.target, ast.Name)}
+    for n in ast.walk(ac):
+        if isinstance(n, ast.Call) and any(isinstance(a, ast.Name) and a.id in card_names for a in n.args):
+            bad = bad or f'`{ast.unparse(n)}` applies a function to a card'
     S, H, D, C = (f.member('Suit', x) for x in 'SHDC')
     pool = [f.make('Card', rank=14, suit=S), f.make('Card', rank=3, suit=S), f.make('Card', rank=13, suit=H),
-            f.make('Card', rank=2, suit=H), f.make('Card', rank=9, suit=D)]
-    leads = [None, f.make('Card', rank=7, suit=S), f.make('Card', rank=7, suit=H), f.make('Card', rank=7, suit=D),
-             f.make('Card', rank=7, suit=C)]
+            f.make('Card', rank=2, suit=H), f.make('Card', rank=9, suit=D), f.make('Card', rank=2, suit=C)]
+    # every one of the 52 cards as the card led (and no lead): the lead is a value of a finite domain, enumerated completely
+    leads = [None] + [f.make('Card', rank=r, suit=su) for su in (C, D, H, S) for r in range(2, 15)]
     first_bad = None
     n = 0
     for k in range(1, len(pool) + 1):
@@ -55,35 +60,48 @@ def run(chk):
     chk.require(first_bad is None, 'C06.R1', w, q, 'available_cards on every hand pattern x lead',
                 f'available_cards equals the follow-suit rule on all {n} (hand pattern, lead) classes',
                 f'hand {first_bad[0]}, lead {first_bad[1]}: available_cards = {first_bad[2]}, the rule gives {first_bad[3]}' if first_bad else '')
+    if bad and first_bad is None:
+        raise AnalysisError('C06.R1', q, f'cards are used beyond suit identity ({bad}): the hand-pattern classes do not cover every hand')
 
     # ---- R2: state-dependent variant and wrappers ------------------------------------------------------------------
     w, q = loc(repo, BASE, 'current_available_cards', 'C06.R2')
-    _, cac = repo.method(BASE, 'current_available_cards', 'C06.R2')
-    hp = cac.args.args[1].arg
-    paths = P.summ.paths(BASE, 'current_available_cards')
-    handtok = Tok('the hand')
-    for ln in (0, 1, 2, 3):
-        chk.evals()
-        pe = P.evaluator({'len': ln, 'locals': {hp: handtok}})
-        cons = [p for p in paths if P.consistent(p, pe)]
-        for p in cons:
-            chk.focus(p, pe)
-            v = p.end[1] if p.end[0] == 'return' else None
-            good = isinstance(v, ast.Call) and isinstance(v.func, ast.Attribute) and v.func.attr == 'available_cards' and len(v.args) + len(v.keywords) == 2
-            got_h = got_f = NOVALUE
-            if good:
-                args = list(v.args) + [k.value for k in v.keywords]
-                names = {k.arg: k.value for k in v.keywords}
-                a_hand = names.get('hand', args[0])
-                a_first = names.get('first_card', args[1] if len(v.args) > 1 else None)
-                got_h = pe.eval(a_hand)
-                got_f = pe.eval(a_first) if a_first is not None else None
-            want_f = None if ln == 0 else Tok(('trick_card', 0))
-            ok = good and got_h == handtok and (got_f is None if ln == 0 else (got_f == want_f or (isinstance(got_f, Tok) and got_f.what == ('trick_card', -ln))))
-            chk.require(ok, 'C06.R2', w, q, f'current_available_cards with {ln} card(s) in the trick -> first_card {got_f}',
-                        f'with {ln} card(s) on the table the suit led is that of ' + ('nobody (free lead)' if ln == 0 else 'the first card'),
-                        f'with {ln} card(s) in the current trick current_available_cards passes hand={got_h}, first_card={got_f}; '
-                        f'expected the hand and ' + ('None' if ln == 0 else 'card 0 of the trick'))
+    # decided by folding the method on a play-state object: current trick of 0..3 cards (every suit led, lead high / low, later
+    # cards of other suits), every trump denomination, every hand pattern of the pool - against the follow-suit rule computed here
+    base_ci = repo.cls(BASE, 'C06.R2')
+    trumps = [f.member('Suit', x) for x in ('S', 'H', 'D', 'C', 'NT')]
+    pool2 = pool[:5]
+    hands2 = [frozenset(h) for k in range(1, len(pool2) + 1) for h in itertools.combinations(pool2, k)]
+    mk = lambda r, su: f.make('Card', rank=r, suit=su)  # noqa: E731
+    tricks = [[]]
+    for su in (S, H, D, C):
+        other = [x for x in (S, H, D, C) if x is not su]
+        tricks += [[mk(2, su)], [mk(13, su), mk(14, other[0])], [mk(8, su), mk(9, other[1]), mk(14, other[2])]]
+    first_bad2 = None
+    n2 = 0
+    for tr in trumps:
+        for trick in tricks:
+            for hs in hands2:
+                n2 += 1
+                obj = DV(base_ci, {'_trick_cards': list(trick), 'trump': tr, 'trick_num': 3})
+                f._fresh.add(id(obj))
+                f._keep.append(obj)
+                lead = trick[0] if trick else None
+                same = frozenset(c for c in hs if lead is not None and c.fields['suit'] == lead.fields['suit'])
+                want = hs if lead is None or not same else same
+                try:
+                    f.steps = 0
+                    got = ('ok', frozenset(f.call_method(obj, 'current_available_cards', set(hs))))
+                except FoldRaise as r:
+                    got = ('raise', r.kind)
+                except Unsupported as e:
+                    raise AnalysisError('C06.R2', q, f'current_available_cards left the foldable subset: {e}')
+                if got != ('ok', want) and first_bad2 is None:
+                    first_bad2 = (sorted(f.str_of(c) for c in hs), [f.str_of(c) for c in trick], tr.name, got, sorted(f.str_of(c) for c in want))
+    chk.evals(n2)
+    chk.require(first_bad2 is None, 'C06.R2', w, q, 'current_available_cards on every (trick, trump, hand pattern)',
+                f'current_available_cards equals the follow-suit rule (suit of the FIRST card of the current trick, trump irrelevant) on {n2} states',
+                (f'hand {first_bad2[0]}, current trick {first_bad2[1]}, trump {first_bad2[2]}: current_available_cards = {first_bad2[3]}, the rule gives '
+                 f'{first_bad2[4]}') if first_bad2 else '')
     for cls, meth, want in (('PlayingPhaseWithHands', 'current_available_cards_in_hand', 'seat'),
                             ('ObservedPlayingPhase', 'current_available_cards_in_hand', 'me'),
                             ('ObservedPlayingPhase', 'current_available_cards_in_dummy_hand', 'dummy')):
